@@ -88,6 +88,9 @@ func genHostResult(t *sim.Tape, name string, base time.Time) *results.Result {
 	res.Summary.Hits.Total = len(res.Rows)
 	res.Summary.Hits.Displayed = len(res.Rows)
 	res.Summary.DataAvailable = true
+	if len(res.Rows) == 0 && t.Bool() {
+		res.Summary.DataAvailable = false // the host has no data for the interface / range at all
+	}
 	ifs := map[string]bool{}
 	for _, row := range res.Rows {
 		ifs[row.Labels.Iface] = true
@@ -192,6 +195,10 @@ func canon(res *results.Result) []string {
 	out = append(out, "hosts "+strings.Join(hs, " "))
 	out = append(out, fmt.Sprintf("first %d last %d", res.Summary.First.Unix(), res.Summary.Last.Unix()))
 	out = append(out, fmt.Sprintf("status %s", res.Status.Code))
+	// lines starting with "~" are compared between the runs of one evaluation only (they must not
+	// depend on the reply order), not with the model (which makes no statement about them)
+	out = append(out, fmt.Sprintf("~data_available %v", res.Summary.DataAvailable))
+	out = append(out, fmt.Sprintf("~status_message %q", res.Status.Message))
 	return out
 }
 
@@ -399,7 +406,7 @@ func c15(r *sim.R) *sim.Violation {
 			}
 			return r.Report(&sim.Violation{Clause: clause, Signature: lineKinds(d), Detail: fmt.Sprintf("%s %d differs from run 0 (same hosts, same outcomes, other schedule):\n%s", kind, k, d)})
 		}
-		if d := diff(want, got); d != "" {
+		if d := diff(modelLines(want), modelLines(got)); d != "" {
 			if v := r.Report(&sim.Violation{Clause: "merged-result-differs-from-model", Signature: lineKinds(d), Detail: fmt.Sprintf("%s %d:\n%s", kind, k, d)}); v != nil {
 				return v
 			}
@@ -423,6 +430,17 @@ func c15(r *sim.R) *sim.Violation {
 		}
 	}
 	return nil
+}
+
+// modelLines drops the lines that are only compared between runs.
+func modelLines(ls []string) []string {
+	var out []string
+	for _, l := range ls {
+		if !strings.HasPrefix(l, "~") {
+			out = append(out, l)
+		}
+	}
+	return out
 }
 
 func diff(want, got []string) string {
